@@ -51,7 +51,8 @@ def kind(u, tab):
 
 
 def _eps_tol(*mags):
-    return 32 * 2.2e-16 * sum(abs(float(m)) for m in mags) + 1e-300
+    eps = 2.2e-16 if _DT[0] != "float32" else 1.2e-7
+    return 32 * eps * sum(abs(float(m)) for m in mags) + 1e-300
 
 
 # ------------------------------------------------------------------ the actual judging
@@ -71,12 +72,16 @@ class Env:
         return n, self.tab[n]
 
 
+_DT = ["float64"]
+
+
 def _mk(name, vals, scalar):
     from unyt import unyt_array, unyt_quantity
 
+    arr = np.array(vals, dtype=_DT[0])
     if scalar:
-        return unyt_quantity(float(vals[0]), name)
-    return unyt_array(np.array(vals, dtype="float64"), name)
+        return unyt_quantity(arr[0], name)
+    return unyt_array(arr, name)
 
 
 def _vals(q):
@@ -109,7 +114,7 @@ def _additive(op, form, qa, qb, a_name):
     if form == "ufunc":
         return uf(qa, qb)
     if form == "inplace":
-        t = unyt_array(np.array(np.atleast_1d(np.asarray(qa)), dtype="float64"), a_name)
+        t = unyt_array(np.array(np.atleast_1d(np.asarray(qa))), a_name)
         if op == "+":
             t += qb
         else:
@@ -122,8 +127,21 @@ def _additive(op, form, qa, qb, a_name):
     return buf
 
 
-def judge_pair(env, a, b, xs, ys, scalar, part, out, quick_forms=False):
+def judge_pair(env, a, b, xs, ys, scalar, part, out, quick_forms=False, dtype="float64"):
     """all clauses for one ordered pair and one set of readings"""
+    _DT[0] = dtype
+    if dtype == "int64":
+        xs, ys = [float(round(v)) for v in xs], [float(round(v)) for v in ys]
+    elif dtype == "float32":
+        # keep away from float32 subnormals: a reading below 1e-3 in magnitude is taken as 0
+        xs, ys = [float(np.float32(v)) if abs(v) >= 1e-3 else 0.0 for v in xs], [float(np.float32(v)) if abs(v) >= 1e-3 else 0.0 for v in ys]
+    try:
+        return _judge_pair(env, a, b, xs, ys, scalar, part, out, quick_forms)
+    finally:
+        _DT[0] = "float64"
+
+
+def _judge_pair(env, a, b, xs, ys, scalar, part, out, quick_forms=False):
     tab = env.tab
     (sa, za), (sb, zb) = tab[a], tab[b]
     ka, kb = kind(a, tab), kind(b, tab)
@@ -350,6 +368,11 @@ def part_sweep(payload):
                        quick_forms=payload.get("quick_forms", False))
             for key, det in out:
                 core.classify(known, part, key, det)
+        for dt in ("int64", "float32"):
+            out = []
+            judge_pair(env, a, b, [50.0, 9.0, -18.0], [20.0, 5.0, 41.0], scalar=False, part=part, out=out, quick_forms=True, dtype=dt)
+            for key, det in out:
+                core.classify(known, part, key.replace("C08:", f"C08:{dt}:", 1), det)
         if len(part.samples) < 2:
             part.sample({"pair": [a, b], "readings": SPECIAL[0], "example": _example(a, b)})
     for a in payload["singles"]:
@@ -379,17 +402,19 @@ reading = st.one_of(
 def case_strategy(names):
     return st.tuples(
         st.sampled_from(names), st.sampled_from(names),
-        st.lists(st.tuples(reading, reading), min_size=1, max_size=4), st.booleans(),
+        st.lists(st.tuples(reading, reading), min_size=1, max_size=4), st.booleans(), st.sampled_from(["float64", "float64", "float64", "int64", "float32"]),
     )
 
 
 def _hyp_case_factory(env):
     def fn(case, part):
-        a, b, rd, scalar = case
+        a, b, rd, scalar, dt = case
         out = []
         xs = [r[0] for r in rd]
         ys = [r[1] for r in rd]
-        judge_pair(env, a, b, xs, ys, scalar, part, out)
+        judge_pair(env, a, b, xs, ys, scalar, part, out, dtype=dt)
+        if dt != "float64":
+            out = [(k.replace("C08:", f"C08:{dt}:", 1), d) for k, d in out]
         if len(xs) >= 2:
             judge_single(env, a, xs, part, out)
         return out
@@ -441,8 +466,8 @@ def replay(ctx, data):
     env = Env(ASCII_PREFIXES)
     out = []
     if isinstance(d, dict) and "case" in d:
-        a, b, rd, scalar = d["case"]
-        judge_pair(env, a, b, [r[0] for r in rd], [r[1] for r in rd], scalar, ctx, out)
+        a, b, rd, scalar = d["case"][:4]
+        judge_pair(env, a, b, [r[0] for r in rd], [r[1] for r in rd], scalar, ctx, out, dtype=(d["case"][4] if len(d["case"]) > 4 else "float64"))
         judge_single(env, a, [r[0] for r in rd] + [1.0], ctx, out)
     else:
         a = d.get("a") or d.get("from") or d.get("unit")
